@@ -3,6 +3,7 @@ import Srctools.Proofs.C14Kv1
 import Srctools.Proofs.C14Iso
 import Srctools.Gen.Dmx
 import Srctools.Model.C14Kv2
+import Srctools.Proofs.C14Kv2Main
 import Srctools.Props.C02
 /-!
 # C14 — DMX export/parse preserves the element graph (binary and KeyValues2), KV1 bridge
@@ -185,6 +186,118 @@ theorem C14_kv2_quote_current (s rest : List Char) (st : Tok.St) (fuel : Nat) :
       = .tok .string s { line := st.line, lastCr := false } rest :=
   C14_kv2_quote _ Tok.C02_gen_ok {} rfl _ s rest st fuel
 
+/-! ## (iv) KeyValues2: `parse (emit g)` -/
+
+/-- OBLIGATION on the current source: the tokenizer tables and the type-name table satisfy the
+decidable predicates the KV2 theorems need (escapes well formed; blanks, CR, LF, brackets are not
+operators, braces and comma are; type names are distinct, none ends in `_array` or equals
+`elementid`, `ValueType.ELEMENT.value = "element"`; the fixed words, type names and hex digits are
+never escaped). -/
+theorem C14_gen_kv2_tables :
+    Tok.escOK Gen.Tok.tables = true ∧ Kv2.lexOK Gen.Tok.tables = true ∧
+    Kv2.namesOK Gen.Dmx.tables = true ∧ Kv2.plainOK Gen.Tok.tables Gen.Dmx.tables = true := by
+  decide
+
+/-- **attribute line** (partial): `"name" "<type>" "<text>"` is read as a scalar attribute. -/
+theorem C14_kv2_attrline_partial (T : Tables) (fold : Str → Str) (N : Kv2.NameFacts T fold) (f : Nat)
+    (typ name : Str) (uuid : Option Str) (acc : List Kv2.PAttr) (nl : Kv2.Toks) (hnl : Kv2.isNls nl)
+    (n : Str) (hn : n ≠ Kv2.nameLit) (t : VT) (ht : t ≠ .element) (s : Str) (ts : Kv2.Toks) :
+    Kv2.parseBlock T (f + 1) fold typ name uuid acc
+        (nl ++ Kv2.S n :: Kv2.S (Kv2.typeName T t) :: Kv2.S s :: ts)
+      = Kv2.parseBlock T f fold typ name uuid (.mk n t false [.text s] :: acc) ts :=
+  Kv2.parseBlock_text T fold N f typ name uuid acc nl hnl n hn t ht s ts
+
+/-- **element reference by UUID** (partial): `"name" "element" "<uuid>"`. -/
+theorem C14_kv2_uuidref_partial (T : Tables) (fold : Str → Str) (N : Kv2.NameFacts T fold) (f : Nat)
+    (typ name : Str) (uuid : Option Str) (acc : List Kv2.PAttr) (nl : Kv2.Toks) (hnl : Kv2.isNls nl)
+    (n : Str) (hn : n ≠ Kv2.nameLit) (u : Str) (hu : Kv2.uuidOK u = true) (ts : Kv2.Toks) :
+    Kv2.parseBlock T (f + 1) fold typ name uuid acc
+        (nl ++ Kv2.S n :: Kv2.S Kv2.elemLit :: Kv2.S u :: ts)
+      = Kv2.parseBlock T f fold typ name uuid (.mk n .element false [.uuid u] :: acc) ts :=
+  Kv2.parseBlock_uuid T fold N f typ name uuid acc nl hnl n hn u hu ts
+
+/-- **array block** (partial): the items of an array attribute up to `]` are read back, for every
+item kind (text, NULL, UUID reference, inline element) and any number of items. -/
+theorem C14_kv2_array_partial (T : Tables) (fold : Str → Str) (N : Kv2.NameFacts T fold) (t : VT)
+    (vs : List Kv2.PVal) (hw : Kv2.wfVals T fold t vs = true) (f : Nat)
+    (hf : (Kv2.toksVals T t true vs).length + 1 ≤ f) (an : Str) (acc : List Kv2.PVal) (nl : Kv2.Toks)
+    (hnl : Kv2.isNls nl) (more : Kv2.Toks) :
+    Kv2.parseArray T f fold an t acc (nl ++ Kv2.toksVals T t true vs ++ Kv2.BKC :: more)
+      = .ok (acc.reverse ++ vs, more) :=
+  Kv2.parse_items T fold N t vs hw f hf an acc nl hnl more
+
+/-- **element block** (partial): the reader applied to the token stream of a parsed-element tree
+(any nesting depth, any attributes) gives back exactly that tree. -/
+theorem C14_kv2_tree_partial (T : Tables) (fold : Str → Str) (N : Kv2.NameFacts T fold) (p : Kv2.PElem)
+    (hw : Kv2.wfElem T fold p = true) (f : Nat) (hf : (Kv2.toksBody T p).length + 1 ≤ f)
+    (defName : Str) (more : Kv2.Toks) :
+    Kv2.parseElement T fold f defName p.type (Kv2.toksBody T p ++ more) = .ok (p, more) :=
+  Kv2.parse_body T fold N p hw f hf defName more
+
+/-- **lexing of an element block** (partial): the text `_export_kv2` writes for element `i`
+(with everything nested in it) is tokenized to its type name followed by the tokens of the tree it
+denotes, wherever it stands. -/
+theorem C14_kv2_lex_partial (E : Tok.Tables) (hE : Tok.escOK E = true) (hL : Kv2.lexOK E = true)
+    (T : Tables) (P : Kv2.PlainFacts E T) (cfold : Char → List Char) (g : Kv2.TGraph) (flat cull : Bool)
+    (hg : Kv2.lexWf g = true) (fuel i : Nat) (hn : Kv2.nestOK g flat fuel i = true)
+    (ind ws rest : List Char) (hind : C01.isWs ind) (hws : C01.isWs ws) :
+    Kv2.LexK E {} cfold (ws ++ (Kv2.emitElem E T g flat cull fuel ind i ++ rest))
+      (Kv2.S (Kv2.ptree g flat cull fuel i).type :: Kv2.toksBody T (Kv2.ptree g flat cull fuel i)) rest :=
+  Kv2.lex_elem hE (Kv2.lexFacts hL) {} rfl rfl cfold P g flat cull hg fuel i hn ind ws rest hind hws
+
+/-- **KeyValues2 round trip, both layouts, with or without `cull_uuid`.** For tables satisfying the
+decidable predicates, a case folding that leaves the characters of the type names alone, and a
+well-formed indexed graph `g` (`graphWf`: UUIDs are UUID text, values have the kind of their
+attribute type — element references for `element`, text for the 13 other types, scalar or array —,
+no attribute spelled `name`, inline elements have a type that is not a value-type name; `uuidsOK`:
+distinct UUIDs, stubs are not elements; `nestAllOK`: the nesting fits the fuel): parsing the emitted
+text succeeds, and the result `ns` is a list of nodes such that node `k` is a copy of element
+`order[k]` — same type, name, UUID (when it is written: always without `cull_uuid`, top-level
+elements with it), same attributes in the same order with the same names, types, scalar/array
+shape and text values; NULL stays NULL, a stub keeps its UUID, and every element reference is a
+node that is a copy of the referenced element.  The first node is the root. -/
+theorem C14_kv2 (E : Tok.Tables) (T : Tables) (hE : Tok.escOK E = true) (hL : Kv2.lexOK E = true)
+    (hN : Kv2.namesOK T = true) (hP : Kv2.plainOK E T = true) (cfold : Char → List Char)
+    (hf : ∀ c ∈ Kv2.nameChars T, cfold c = [c]) (g : Kv2.TGraph) (flat cull : Bool) (hne : g.elems ≠ [])
+    (hwf : Kv2.graphWf T (fun s => s.flatMap cfold) g flat = true) (hu : Kv2.uuidsOK g = true)
+    (hnest : Kv2.nestAllOK g flat = true) :
+    ∃ ns, Kv2.parse E T cfold (Kv2.emit E T flat cull g) = .ok ns ∧
+      List.Forall₂ (Kv2.NodeRel g flat cull (Kv2.ValRel (Kv2.order g flat))) (Kv2.order g flat) ns ∧
+      (Kv2.order g flat).head? = some 0 := by
+  have hn : ∀ i ∈ Kv2.roots g flat, Kv2.nestOK g flat (g.elems.length + 1) i = true := by
+    simpa [Kv2.nestAllOK] using hnest
+  refine ⟨_, Kv2.parse_emit hE hL (Kv2.plainFacts E T hP) cfold (Kv2.nameFacts T hN cfold hf)
+    g flat cull hwf hn hne, Kv2.resolve_rel T _ g flat cull hwf hu hn, Kv2.order_head g flat hne hn⟩
+
+/-- **Flat layout**: `order` is `0, 1, …, n-1`, so node `k` is a copy of element `k` and a
+reference to element `j` is node `j`: the parsed graph *is* `g` (no side condition on nesting). -/
+theorem C14_kv2_flat (E : Tok.Tables) (T : Tables) (hE : Tok.escOK E = true) (hL : Kv2.lexOK E = true)
+    (hN : Kv2.namesOK T = true) (hP : Kv2.plainOK E T = true) (cfold : Char → List Char)
+    (hf : ∀ c ∈ Kv2.nameChars T, cfold c = [c]) (g : Kv2.TGraph) (cull : Bool) (hne : g.elems ≠ [])
+    (hwf : Kv2.graphWf T (fun s => s.flatMap cfold) g true = true) (hu : Kv2.uuidsOK g = true) :
+    ∃ ns, Kv2.parse E T cfold (Kv2.emit E T true cull g) = .ok ns ∧
+      List.Forall₂ (Kv2.NodeRel g true cull (Kv2.ValRel (List.range g.elems.length)))
+        (List.range g.elems.length) ns := by
+  have hnest : Kv2.nestAllOK g true = true := by
+    simp only [Kv2.nestAllOK, List.all_eq_true, Kv2.roots_flat, List.mem_range]
+    exact fun i hi => Kv2.nestOK_flat g _ i hi
+  obtain ⟨ns, h1, h2, _⟩ := C14_kv2 E T hE hL hN hP cfold hf g true cull hne hwf hu hnest
+  rw [Kv2.order_flat] at h2
+  exact ⟨ns, h1, h2⟩
+
+/-- … at the tables of the current source, for any case folding that is the identity on the
+characters of the type names (`str.casefold` on lower-case ASCII letters, digits and `_`). -/
+theorem C14_kv2_current (cfold : Char → List Char)
+    (hf : ∀ c ∈ Kv2.nameChars Gen.Dmx.tables, cfold c = [c]) (g : Kv2.TGraph) (flat cull : Bool)
+    (hne : g.elems ≠ [])
+    (hwf : Kv2.graphWf Gen.Dmx.tables (fun s => s.flatMap cfold) g flat = true)
+    (hu : Kv2.uuidsOK g = true) (hnest : Kv2.nestAllOK g flat = true) :
+    ∃ ns, Kv2.parse Gen.Tok.tables Gen.Dmx.tables cfold (Kv2.emit Gen.Tok.tables Gen.Dmx.tables flat cull g) = .ok ns ∧
+      List.Forall₂ (Kv2.NodeRel g flat cull (Kv2.ValRel (Kv2.order g flat))) (Kv2.order g flat) ns ∧
+      (Kv2.order g flat).head? = some 0 :=
+  C14_kv2 _ _ C14_gen_kv2_tables.1 C14_gen_kv2_tables.2.1 C14_gen_kv2_tables.2.2.1
+    C14_gen_kv2_tables.2.2.2 cfold hf g flat cull hne hwf hu hnest
+
 /-! ## non-vacuity -/
 
 /-- a graph with a self reference, a mutual cycle, NULL, a stub, a scalar matrix, an empty array,
@@ -275,6 +388,11 @@ def C14_kv2Check (flat cull : Bool) : Bool :=
   | .ok ns => decide (ns = C14_kv2Expect cull)
   | .error _ => false
 
+example : Kv2.graphWf Gen.Dmx.tables (fun s => s) C14_kv2Sample false = true := by decide +kernel
+example : Kv2.uuidsOK C14_kv2Sample = true := by decide +kernel
+example : Kv2.nestAllOK C14_kv2Sample false = true := by decide +kernel
+example : Kv2.orderOK C14_kv2Sample false = true := by decide +kernel
+example : Kv2.order C14_kv2Sample false = [0, 1] := by decide +kernel
 example : C14_kv2Check false false = true := by decide +kernel
 example : C14_kv2Check false true = true := by decide +kernel
 
